@@ -142,6 +142,40 @@ class Obj(V):
         return "Obj(%s %s)" % (self.kind, {k: v for k, v in self.d.items() if k != 'store'})
 
 
+class Opaque(V):
+    """result of a call the model does not know, made on harmless arguments: irrelevant unless it is USED"""
+    def __init__(self, why):
+        self.why = why
+
+    def __repr__(self):
+        return "Opaque(%s)" % self.why
+
+
+MUTABLE_KINDS = ('target', 'rowmut', 'arr1', 'arr2', 'view', 'lanesvar', 'zip', 'ndarr', 'axis_iter_mut', 'dyn', 'dyniter', 'vec')
+
+
+def harmless(v, depth=0):
+    """an argument through which an unknown callee cannot change or observe-and-feed-back tracked state"""
+    if depth > 6:
+        return False
+    if isinstance(v, (Num, B, Unit, Opaque)):
+        return True
+    if isinstance(v, Ref):
+        inner = v.place.get() if not isinstance(v.place, FnPlace) else None
+        if isinstance(v.place, FnPlace):
+            return False
+        if v.mut and not isinstance(deref_all(inner), Opaque):
+            return False
+        return harmless(inner, depth + 1)
+    if isinstance(v, Tup):
+        return all(harmless(x, depth + 1) for x in v.items)
+    if isinstance(v, Enum):
+        return all(harmless(x, depth + 1) for x in v.fields.values())
+    if isinstance(v, Obj):
+        return v.kind not in MUTABLE_KINDS
+    return False
+
+
 def OK(v=None):
     return Enum('std::result::Result', 'Ok', {'0': v if v is not None else Unit()})
 
@@ -202,8 +236,10 @@ class FieldPlace(Place):
         b = deref_all(self.base.get())
         if isinstance(b, Enum):
             if self.name not in b.fields:
-                raise Unsupported("field `%s` of %r unknown to the model" % (self.name, b))
+                return Opaque("field `%s`" % self.name)
             return b.fields[self.name]
+        if isinstance(b, Opaque):
+            return Opaque("%s.%s" % (b.why, self.name))
         if isinstance(b, Tup):
             return b.items[int(self.name)]
         if isinstance(b, Obj) and 'fields' in b.d and self.name in b.d['fields']:
@@ -342,6 +378,7 @@ class Interp:
         self.crate = lib.f['crate']
         self.steps = 0
         self.inlined = []
+        self.opaque_calls = []
 
     # ------------------------------------------------------------ calls
     def call_def(self, def_path, args, e=None):
@@ -418,6 +455,9 @@ class Interp:
             nb = self.lib.body(strip_generics(path))
             if nb is not None and self.model.inline_ok(strip_generics(path)):
                 return self.call_def(nb['def'], args, e)
+        if getattr(self.model, 'allow_opaque', True) and all(harmless(a) for a in args):
+            self.opaque_calls.append((name, line_of(e) if e is not None else ''))
+            return Opaque("result of `%s`" % name)
         raise Unsupported("call to `%s` is not modelled" % name, e)
 
     def _builtin(self, name, tname, cal, args, e, frame):
